@@ -1122,10 +1122,19 @@ func (w *Writer) writeSwizzle(swizzle ir.ExprSwizzle) error {
 			w.write("%sfloat3(", Namespace)
 		}
 	}
+	// A select with a scalar condition is written inline as a ternary, which
+	// binds weaker than the swizzle: (c ? a : b).xxx, not c ? a : b.xxx.
+	needParens := false
+	if !needsUnpack && w.needsParensInContext(swizzle.Vector) {
+		_, needParens = w.currentFunction.Expressions[swizzle.Vector].Kind.(ir.ExprSelect)
+	}
+	if needParens {
+		w.write("(")
+	}
 	if err := w.writeExpression(swizzle.Vector); err != nil {
 		return err
 	}
-	if needsUnpack {
+	if needsUnpack || needParens {
 		w.write(")")
 	}
 	w.write(".")
